@@ -121,17 +121,19 @@ def run_numeric(ctx, B, ins, cases, inline=False, depth=0):
     if b["stage"] != "ok":
         found.append(("build:%s:%s-rejects" % (ins, b["stage"]), "%s cannot be built natively: %s %s" % (ins, b["msg"], b.get("asm", "")),
                       {"instruction": ins, "stage": b["stage"], "message": b["msg"], "asm": b.get("asm"), "wat": wat[:1500]}))
-        return 0, found
+        return 0, found, []
     wl, nl = wz["out"].splitlines(), nat["out"].splitlines()
     if wz["st"] != "ok" or len(wl) != len(cases):
         raise vlib.InfraError("reference run of the %s grid did not complete (%s, %d/%d lines): the case generator's trap predicate is wrong" % (
             ins, wz["st"], len(wl), len(cases)))
     pfx = "inline:" if inline else "ins:"
     n = 0
+    pairs = []
     for i, ops in enumerate(cases):
         if i >= len(nl):
             break
         n += 1
+        pairs.append((ops, nl[i]))
         if not same_value(ins, rt, nl[i], wl[i]):
             cls = M.case_class(ins, ptypes, ops)
             found.append(("%s%s:%s" % (pfx, ins, cls), "%s(%s) natively gives %s, WebAssembly gives %s" % (ins, ", ".join(hex(o) for o in ops), nl[i], wl[i]),
@@ -146,13 +148,14 @@ def run_numeric(ctx, B, ins, cases, inline=False, depth=0):
                       {"instruction": ins, "operands": [hex(o) for o in ops], "native_status": native_status(nat["rc"]), "wasm": wl[k], "class": cls}))
         rest = [c for c in cases[k + 1:] if M.case_class(ins, ptypes, c) != cls]
         if rest and depth < 6:
-            n2, f2 = run_numeric(ctx, B, ins, rest, inline, depth + 1)
+            n2, f2, p2 = run_numeric(ctx, B, ins, rest, inline, depth + 1)
             n += n2
             found += f2
+            pairs += p2
     elif not status_agrees(nat, wz):
         found.append(("%s%s:exit-status" % (pfx, ins), "grid module for %s ends with %s natively, %s on wazero" % (ins, native_status(nat["rc"]), wz["st"]),
                       {"instruction": ins, "native_status": native_status(nat["rc"]), "wasm_status": wz["st"]}))
-    return n, found
+    return n, found, pairs
 
 
 def run_inline_batch(ctx, B, name, items):
@@ -365,10 +368,14 @@ def run(ctx):
                 seen_cls[cls] = seen_cls.get(cls, 0) + 1
                 jobs.append(("trap", ins, c, cls))
 
+    grid_native = {}          # instruction -> [(operands, line printed by the real executable)]   (function form)
+
     def do(job):
         if job[0] == "grid":
             _, ins, cases, inline = job
-            n, f = run_numeric(ctx, B, ins, cases, inline)
+            n, f, pairs = run_numeric(ctx, B, ins, cases, inline)
+            if not inline:
+                grid_native[ins] = pairs
             return job, n, f
         if job[0] == "inlinebatch":
             n, f = run_inline_batch(ctx, B, "inlb_" + job[1], job[2])
@@ -439,7 +446,7 @@ def run(ctx):
 
     # ---- 3. the Lean witnesses of the false full-strength statements, replayed on the real ELF (must still fail there)
     for row, ops, expect_cls in T.WITNESSES:
-        n, f = run_numeric(ctx, B, row, [ops], inline=True)
+        n, f, _ = run_numeric(ctx, B, row, [ops], inline=True)
         if not f:
             ctx.proof["broken"].append({"theorem": "witness replay %s" % row,
                                         "why": "Lean proves the template for %s wrong on %s, but the real executable now agrees with WebAssembly: model or extractor out of date" % (row, ops)})
@@ -449,7 +456,7 @@ def run(ctx):
     # ---- 4. correspondence: Lean x86 model + regenerated templates vs the real CPU (outputs of the inline grid)
     model = ctx.build_model("c02")
     if model:
-        T.model_correspondence(ctx, B, model, tinfo, dist, quick)
+        T.model_correspondence(ctx, model, tinfo, grid_native, dist)
     # ---- 4b. the template text vs the machine code in the linked ELF (objdump)
     T.objdump_crosscheck(ctx, B, tinfo, dist)
 
